@@ -409,7 +409,66 @@ package astisub
 //@   ensures [rope] s == pad2(i / 3600000000000) ++ ":" ++ pad2(i % 3600000000000 / 60000000000) ++ ":" ++ pad2(i % 60000000000 / 1000000000) ++ millisecondSep ++ strpadleft(itoa(i % 1000000000 / fracUnit(numberOfMillisecondDigits)), 48, numberOfMillisecondDigits)
 //@   ensures [fraction-digits] len(strpadleft(itoa(i % 1000000000 / fracUnit(numberOfMillisecondDigits)), 48, numberOfMillisecondDigits)) == numberOfMillisecondDigits
 //@   lemma pure fields(t time.Duration, k int) : 0 <= t && (k == 2 || k == 3) ==> t % 3600000000000 / 60000000000 < 60 && t % 60000000000 / 1000000000 < 60 && t % 1000000000 / fracUnit(k) < (k == 3 ? 1000 : 100)
-//@   lemma pure truncates(t time.Duration, k int) : 0 <= t && (k == 2 || k == 3) ==> (t / 3600000000000) * 3600000000000 + (t % 3600000000000 / 60000000000) * 60000000000 + (t % 60000000000 / 1000000000) * 1000000000 + (t % 1000000000 / fracUnit(k)) * fracUnit(k) == t - t % fracUnit(k)
+//@   lemma pure truncates3(t time.Duration) : 0 <= t ==> (t / 3600000000000) * 3600000000000 + (t % 3600000000000 / 60000000000) * 60000000000 + (t % 60000000000 / 1000000000) * 1000000000 + (t % 1000000000 / 1000000) * 1000000 == t - t % 1000000
+//@   lemma pure truncates2(t time.Duration) : 0 <= t ==> (t / 3600000000000) * 3600000000000 + (t % 3600000000000 / 60000000000) * 60000000000 + (t % 60000000000 / 1000000000) * 1000000000 + (t % 1000000000 / 10000000) * 10000000 == t - t % 10000000
 //@   lemma pure monotone(t time.Duration, u time.Duration, k int) : 0 <= t && t <= u && (k == 2 || k == 3) ==> t - t % fracUnit(k) <= u - u % fracUnit(k)
 //@   assigns nothing
+//@ end
+
+// The STL formatters peel off hours, minutes and seconds by subtraction; the contracts state the
+// fields in that form (h, then the remainder r1, ...) and the lemma stlFields shows that these are
+// the usual quotients and remainders of d.
+//@ pure stlH(d time.Duration) = d / 3600000000000
+//@ pure stlR1(d time.Duration) = d - stlH(d) * 3600000000000
+//@ pure stlM(d time.Duration) = stlR1(d) / 60000000000
+//@ pure stlR2(d time.Duration) = stlR1(d) - stlM(d) * 60000000000
+//@ pure stlS(d time.Duration) = stlR2(d) / 1000000000
+//@ pure stlR3(d time.Duration) = stlR2(d) - stlS(d) * 1000000000
+//@ pure stlF(d time.Duration, fr int) = stlR3(d) * fr / 1000000000
+
+//@ func formatDurationSTLBytes(d time.Duration, framerate int) (o []byte)
+//@   prop C16
+//@   requires 0 <= d && d < 86400000000000 && (framerate == 25 || framerate == 30)
+//@   lemma pure stlFields(t time.Duration, fr int) : 0 <= t && t < 86400000000000 && (fr == 25 || fr == 30) ==> stlH(t) < 24 && stlM(t) == t % 3600000000000 / 60000000000 && stlM(t) < 60 && stlS(t) == t % 60000000000 / 1000000000 && stlS(t) < 60 && stlR3(t) == t % 1000000000 && 0 <= stlF(t, fr) && stlF(t, fr) < fr
+//@   ensures [fields] len(o) == 4 && o[0] == stlH(d) && o[1] == stlM(d) && o[2] == stlS(d) && o[3] == stlF(d, framerate)
+//@   ensures [fresh] fresh(o)
+//@   assigns nothing
+//@ end
+
+//@ func parseDurationSTLBytes(b []byte, framerate int) time.Duration
+//@   prop C16
+//@   requires len(b) >= 4 && framerate > 0
+//@   ensures [value] result == b[0] * 3600000000000 + b[1] * 60000000000 + b[2] * 1000000000 + (1000000000 * b[3] + framerate - 1) / framerate
+//@   assigns nothing
+//@ end
+
+//@ func formatDurationSTL(d time.Duration, framerate int) (o string)
+//@   prop C16
+//@   requires 0 <= d && d < 86400000000000 && (framerate == 25 || framerate == 30)
+//@   ensures [rope] o == pad2(stlH(d)) ++ pad2(stlM(d)) ++ pad2(stlS(d)) ++ pad2(stlF(d, framerate))
+//@   assigns nothing
+//@ end
+
+// Reading what was written and writing again changes no timecode (C16, C05):
+// format(parse(b, fr), fr) == b for every valid timecode at 25 and 30 fps.
+//@ harness stlBytesIdempotent(b []byte, fr int)
+//@   prop C16
+//@   requires (fr == 25 || fr == 30) && len(b) == 4 && b[0] < 24 && b[1] < 60 && b[2] < 60 && b[3] < fr
+//@   let t = parseDurationSTLBytes(b, fr)
+//@   let o = formatDurationSTLBytes(t, fr)
+//@   ensures [idempotent] o[0] == b[0] && o[1] == b[1] && o[2] == b[2] && o[3] == b[3]
+//@   ensures [frame-instant] 0 <= t - (b[0] * 3600000000000 + b[1] * 60000000000 + b[2] * 1000000000) && (t - (b[0] * 3600000000000 + b[1] * 60000000000 + b[2] * 1000000000)) * fr - b[3] * 1000000000 < fr && (t - (b[0] * 3600000000000 + b[1] * 60000000000 + b[2] * 1000000000)) * fr - b[3] * 1000000000 > 0 - fr
+//@ end
+
+// Writing an instant and reading it back yields the frame boundary at or before it (never later,
+// less than one frame earlier), and a second write is identical to the first.
+//@ harness stlBytesWriteRead(d time.Duration, fr int)
+//@   prop C16
+//@   requires 0 <= d && d < 86400000000000 && (fr == 25 || fr == 30)
+//@   let o = formatDurationSTLBytes(d, fr)
+//@   let t = parseDurationSTLBytes(o, fr)
+//@   let o2 = formatDurationSTLBytes(t, fr)
+//@   ensures [not-after] t <= d
+//@   ensures [within-a-frame] (d - t) * fr < 1000000000 + fr
+//@   ensures [second-write] o2[0] == o[0] && o2[1] == o[1] && o2[2] == o[2] && o2[3] == o[3]
 //@ end
